@@ -16,10 +16,10 @@ import (
 )
 
 var (
-	bigOne  = big.NewInt(1)
-	ten18   = new(big.Int).Exp(big.NewInt(10), big.NewInt(18), nil)
-	ten6    = new(big.Int).Exp(big.NewInt(10), big.NewInt(6), nil)
-	half18  = new(big.Int).Quo(ten18, big.NewInt(2))
+	bigOne = big.NewInt(1)
+	ten18  = new(big.Int).Exp(big.NewInt(10), big.NewInt(18), nil)
+	ten6   = new(big.Int).Exp(big.NewInt(10), big.NewInt(6), nil)
+	half18 = new(big.Int).Quo(ten18, big.NewInt(2))
 )
 
 func pow(b, e int64) *big.Int { return new(big.Int).Exp(big.NewInt(b), big.NewInt(e), nil) }
@@ -151,8 +151,8 @@ func ratHalfEven(num, den *big.Int) *big.Int {
 }
 
 type c18 struct {
-	r    *ev.Run
-	eval int64
+	r     *ev.Run
+	eval  int64
 	kinds map[string]bool
 }
 
@@ -642,14 +642,14 @@ func (c *c18) coins() {
 	// invalid inputs
 	one := sdk.NewInt(1)
 	invalid := map[string]sdk.Coins{
-		"unsorted":  {{Denom: "bbb", Amount: one}, {Denom: "aaa", Amount: one}},
-		"duplicate": {{Denom: "aaa", Amount: one}, {Denom: "aaa", Amount: one}},
-		"zero":      {{Denom: "aaa", Amount: sdk.ZeroInt()}},
-		"zero2":     {{Denom: "aaa", Amount: one}, {Denom: "bbb", Amount: sdk.ZeroInt()}},
-		"negative":  {{Denom: "aaa", Amount: sdk.NewInt(-1)}},
-		"negative2": {{Denom: "aaa", Amount: one}, {Denom: "bbb", Amount: sdk.NewInt(-1)}},
-		"uppercase": {{Denom: "AAA", Amount: one}},
-		"upper2":    {{Denom: "aaa", Amount: one}, {Denom: "bBb", Amount: one}},
+		"unsorted":   {{Denom: "bbb", Amount: one}, {Denom: "aaa", Amount: one}},
+		"duplicate":  {{Denom: "aaa", Amount: one}, {Denom: "aaa", Amount: one}},
+		"zero":       {{Denom: "aaa", Amount: sdk.ZeroInt()}},
+		"zero2":      {{Denom: "aaa", Amount: one}, {Denom: "bbb", Amount: sdk.ZeroInt()}},
+		"negative":   {{Denom: "aaa", Amount: sdk.NewInt(-1)}},
+		"negative2":  {{Denom: "aaa", Amount: one}, {Denom: "bbb", Amount: sdk.NewInt(-1)}},
+		"uppercase":  {{Denom: "AAA", Amount: one}},
+		"upper2":     {{Denom: "aaa", Amount: one}, {Denom: "bBb", Amount: one}},
 		"shortdenom": {{Denom: "a", Amount: one}},
 	}
 	for name, cs := range invalid {
